@@ -346,6 +346,8 @@ func checkC02(c *Ctx) {
 	c.Clause("every Strategy implementation proposes only health-tested backends (or findHealthyBackend falls back to an exhaustive scan)")
 	c.Clause("handleRequest answers 503 only on the no-backend edge and that edge never reaches the proxy")
 	c.Clause("every pick is preceded, unconditionally, by the re-examination of expired unhealthy windows (no throttle or debounce between an expiry and the next pick)")
+	c.Clause("the health flag is set to true only where the unhealthy window was found expired under the backend's write lock (a probe's 200 or a helper without that test never re-admits); every ejection stores a new window")
+	c.Clause("each strategy's selection returns a backend whenever one candidate passed the health test (no early nil, no index past the end)")
 	c.NotDecided("that the specific pick is right for a given history/rotation; races between the check and the dispatch (the property's own 'moment of dispatch')")
 
 	c.dispatchGuard()
@@ -658,7 +660,7 @@ func (c *Ctx) healthSpec() *Spec {
 		},
 		Cond: func(in *ssa.If, fr *Frame) string {
 			d := p.Desc(in.Cond, fr)
-			mention := []string{"Backend.IsHealthy", "Backend.UnhealthyUntil", "unhealthyBackends", "passiveThreshold", "passiveEnabled", "StatusCode", "statusCode", "performHealthCheck", "metricsCollector", "NewRequestWithContext(", "http.Client).Do("}
+			mention := []string{"Backend.IsHealthy", "Backend.UnhealthyUntil", "unhealthyBackends", "passiveThreshold", "passiveEnabled", "StatusCode", "statusCode", "performHealthCheck", "metricsCollector", "NewRequestWithContext(", "http.Client).Do(", "Request).Context("}
 			if ps := c.probeSender(); ps != nil {
 				mention = append(mention, ps.Name()+"(")
 			}
@@ -669,6 +671,9 @@ func (c *Ctx) healthSpec() *Spec {
 				if strings.Contains(d, s) {
 					return "if " + d
 				}
+			}
+			if derivesFromRequestContext(in.Cond, map[ssa.Value]bool{}, 0) {
+				return "if " + d
 			}
 			return ""
 		},
@@ -792,6 +797,9 @@ func checkC04(c *Ctx) {
 	c.Clause("every health flag store is mirrored to metrics with the same value inside the same critical section")
 	c.Clause("recovery is strategy-independent: raw-flag filters are backed by an expiry re-examination before the strategy is asked")
 	c.Clause("no client traffic while ejected (C02 dispatch guard and eligibility predicate)")
+	c.Clause("a failed exchange counts towards passive ejection only when its client had not gone away (test of the served request's context)")
+	c.Clause("RemoveBackend deletes the per-name passive failure record under its lock: a backend registered again under the name starts clean")
+	c.Clause("the status the passive check sees is the last one the backend wrote; probe goroutines started in a loop own their loop variable (module Go version < 1.22); the ejection window is the configured unhealthy_timeout on every path")
 	c.NotDecided("exact window arithmetic; bounded interleavings of event histories; what the JSON endpoints print")
 
 	lockDiscipline(c, func(k string) bool {
@@ -983,7 +991,7 @@ func (c *Ctx) passiveThreshold() {
 	}
 	cnt := "fld:loadbalancer.healthChecker.unhealthyBackends[fld:loadbalancer.Backend.Name]"
 	c.traceRule("passive-threshold", "loadbalancer.(*LoadBalancer).recordRequestMetrics", rec, c.healthSpec(),
-		"passive accounting runs iff status ≥ 500 ∧ passive enabled; the per-backend counter is incremented under its lock, compared ≥ threshold, and reset after ejecting",
+		"passive accounting runs iff status ≥ 500 ∧ passive enabled ∧ the client had not gone away; the per-backend counter is incremented under its lock, compared ≥ threshold, and reset after ejecting",
 		func(t *Trace) string {
 			// the server-error test: a comparison of the captured status with the 500 boundary
 			var st Rel
@@ -1026,9 +1034,64 @@ func (c *Ctx) passiveThreshold() {
 					marked = i
 				}
 			}
+			// whether the client was still there when the exchange ended: the test of the served
+			// request's context.  A 502 / aborted response that Helios produced because the client
+			// hung up is not a failed response of the backend
+			// Tests on this path that derive from the served request's context.  Where the form tells
+			// which edge means "gone" (Err() ≠ nil, errors.Is(Err(), …) true) the polarity is used;
+			// other forms (a flag assembled from several tests, a select on Done()) are accepted on
+			// either edge: what is decided is that the strike depends on such a test
+			goneKnown, knownGone, notKnownPresent := false, false, false
+			for _, it := range t.Items {
+				ifi, isIf := it.Instr.(*ssa.If)
+				if !isIf {
+					continue
+				}
+				cv := ifi.Cond
+				if it.Cond != nil {
+					cv = it.Cond
+				}
+				if !derivesFromRequestContext(cv, map[ssa.Value]bool{}, 0) {
+					continue
+				}
+				goneKnown = true
+				r := c.condRel(it)
+				switch {
+				case r.OK && r.Pred == "" && r.Y == "k:nil" && strings.HasPrefix(r.X, "call:(context.Context).Err(call:(*net/http.Request).Context(param:"):
+					if r.Neq {
+						knownGone, notKnownPresent = true, true
+					} else if !(r.Lo == 0 && r.Hi == 0) {
+						notKnownPresent = true
+					}
+				case r.OK && r.Pred == "" && r.Y == "" && strings.HasPrefix(r.X, "call:errors.Is(call:(context.Context).Err(call:(*net/http.Request).Context(param:"):
+					if r.Lo == 1 && r.Hi == 1 {
+						knownGone, notKnownPresent = true, true
+					} else if !(r.Lo == 0 && r.Hi == 0) {
+						notKnownPresent = true
+					}
+				default:
+					notKnownPresent = true
+				}
+			}
+			struck := inc >= 0 || marked >= 0
 			if !(failed && enabled) {
-				if inc >= 0 || marked >= 0 {
+				if struck {
 					return "passive failure accounting runs for a request that is not (status ≥ 500 ∧ passive enabled)"
+				}
+				return ""
+			}
+			if !goneKnown {
+				if !struck {
+					return "failed response does not increment the backend's failure counter"
+				}
+				return "a failed exchange counts towards ejection without a test whether its client had gone away (r.Context().Err()): the 502 / aborted response of a download the client hung up on is booked against the backend, unhealthy_threshold hang-ups eject a backend that answered correctly"
+			}
+			if struck && knownGone {
+				return "a request its client abandoned (request context cancelled) counts towards passive ejection"
+			}
+			if !struck {
+				if !notKnownPresent {
+					return "failed response does not increment the backend's failure counter although its client was still there"
 				}
 				return ""
 			}
@@ -1757,4 +1820,77 @@ func (c *Ctx) removalClearsNameState() {
 	if len(names) == 0 {
 		c.Pass(rule, "loadbalancer name-keyed maps", "-", "no balancer state is keyed by backend name")
 	}
+}
+
+// derivesFromRequestContext: v is computed from (*http.Request).Context() — its Err(), its Done()
+// channel (also as a select case), errors.Is on either, a flag merged from such tests, or the result
+// of a Helios helper that returns one.
+func derivesFromRequestContext(v ssa.Value, seen map[ssa.Value]bool, depth int) bool {
+	if v == nil || seen[v] || depth > 10 {
+		return false
+	}
+	seen[v] = true
+	switch x := v.(type) {
+	case *ssa.Call:
+		if CalleeName(x) == "(*net/http.Request).Context" {
+			return true
+		}
+		for _, a := range x.Call.Args {
+			if derivesFromRequestContext(a, seen, depth+1) {
+				return true
+			}
+		}
+		if x.Call.IsInvoke() && derivesFromRequestContext(x.Call.Value, seen, depth+1) {
+			return true
+		}
+		if callee := x.Call.StaticCallee(); callee != nil && callee.Blocks != nil && strings.Contains(callee.String(), modPath) {
+			for _, b := range callee.Blocks {
+				for _, in := range b.Instrs {
+					if ret, ok := in.(*ssa.Return); ok {
+						for _, rv := range ret.Results {
+							if derivesFromRequestContext(rv, seen, depth+1) {
+								return true
+							}
+						}
+					}
+				}
+			}
+		}
+	case *ssa.Phi:
+		for _, e := range x.Edges {
+			if derivesFromRequestContext(e, seen, depth+1) {
+				return true
+			}
+		}
+		// a flag set on the edges of a test: look at the conditions that choose the edge
+		for _, pred := range x.Block().Preds {
+			if ifi, ok := pred.Instrs[len(pred.Instrs)-1].(*ssa.If); ok && derivesFromRequestContext(ifi.Cond, seen, depth+1) {
+				return true
+			}
+			for _, pp := range pred.Preds {
+				if ifi, ok := pp.Instrs[len(pp.Instrs)-1].(*ssa.If); ok && derivesFromRequestContext(ifi.Cond, seen, depth+1) {
+					return true
+				}
+			}
+		}
+	case *ssa.BinOp:
+		return derivesFromRequestContext(x.X, seen, depth+1) || derivesFromRequestContext(x.Y, seen, depth+1)
+	case *ssa.UnOp:
+		return derivesFromRequestContext(x.X, seen, depth+1)
+	case *ssa.Extract:
+		return derivesFromRequestContext(x.Tuple, seen, depth+1)
+	case *ssa.Select:
+		for _, st := range x.States {
+			if derivesFromRequestContext(st.Chan, seen, depth+1) {
+				return true
+			}
+		}
+	case *ssa.ChangeInterface:
+		return derivesFromRequestContext(x.X, seen, depth+1)
+	case *ssa.MakeInterface:
+		return derivesFromRequestContext(x.X, seen, depth+1)
+	case *ssa.TypeAssert:
+		return derivesFromRequestContext(x.X, seen, depth+1)
+	}
+	return false
 }
